@@ -11,7 +11,7 @@
            naturality theorem (Theory/Natural.v), which is stated for an arbitrary index space.
            numpy is modelled as far as these methods use it: integer and slice subscripts of a 1-D / 2-D array
            (negative indices, bounds, slice.indices, "too many indices", zero step), and the broadcasting of the
-           assigned value to the addressed shape (ranks 0, 1, 2; leading axes of length 1 are dropped).
+           value assigned to a 1-D array (a number, or an array of the addressed length or of length 1).
            Not modelled: views / aliasing (every result is a value; the right-hand side of an assignment does not
            alias the target), dtype casts (one coefficient type R), None / Ellipsis / boolean / array subscripts,
            tuple-valued `_values` (identical to the list case up to the class of the container).
@@ -145,74 +145,32 @@ Section Storage.
     Ok (mkSmv (s_keys X) vals).
 
   (* ---------------------------------------------------------------------------------------------
-     numpy assignment  target[...] = value : the value as an array of rank 0, 1 or 2, broadcast to the
-     addressed shape *)
-  Inductive rv := RV0 (c : R) | RV1 (l : list R) | RV2 (m : nat) (rows : list (list R)).
+     numpy assignment  a[...] = value  for a 1-D array a: the value (a number or a 1-D array) is broadcast to
+     the addressed shape *)
   (* shape (len l,) -> shape (p,) *)
   Definition bc_row (p : nat) (l : list R) : res (list R) :=
     if Nat.eqb (length l) p then Ok l else match l with [c] => Ok (repeat c p) | _ => Err EValue end.
-  (* -> shape (k,) *)
-  Definition bc1 (k : nat) (v : rv) : res (list R) :=
-    match v with
-    | RV0 c => Ok (repeat c k)
-    | RV1 l => bc_row k l
-    | RV2 _ rows => match rows with [r] => bc_row k r | _ => Err EValue end     (* a leading axis of length 1 is dropped *)
-    end.
-  (* -> shape (k, p) *)
-  Definition bc2 (k p : nat) (v : rv) : res (list (list R)) :=
-    match v with
-    | RV0 c => Ok (repeat (repeat c p) k)
-    | RV1 l => r <- bc_row p l ;; Ok (repeat r k)                   (* trailing axes are aligned: along the KEY axis *)
-    | RV2 m rows =>
-        if negb (Nat.eqb m p || Nat.eqb m 1) then Err EValue else
-        rows' <- mapM (bc_row p) rows ;;
-        if Nat.eqb (length rows) k then Ok rows'
-        else match rows' with [r] => Ok (repeat r k) | _ => Err EValue end
-    end.
-
-  Definition rv_of_coef (o : coef) : rv := match o with CNum c | CNp c => RV0 c | CArr l => RV1 l end.
-  Fixpoint all_scalars (l : list coef) : option (list R) :=
-    match l with
-    | [] => Some []
-    | (CNum c | CNp c) :: r => option_map (cons c) (all_scalars r)
-    | CArr _ :: _ => None
-    end.
-  Fixpoint all_arrays (m : nat) (l : list coef) : option (list (list R)) :=
-    match l with
-    | [] => Some []
-    | CArr a :: r => if Nat.eqb (length a) m then option_map (cons a) (all_arrays m r) else None
-    | _ :: _ => None
-    end.
-  (* the assigned value as an array.  An ndarray is taken as it is.  A python list is converted with at most as
-     many axes as the target has ([rank1] = the target has one axis): a list that holds arrays is then a
-     ValueError ("would exceed the maximum number of dimensions"), as is a ragged list (inhomogeneous shape). *)
-  Definition rv_of_store (rank1 : bool) (st : store) : res rv :=
-    match st with
-    | Nd1 v => Ok (RV1 v)
-    | Nd2 n rows => Ok (RV2 n rows)
-    | LBack l =>
-        match l with
-        | [] => Ok (RV1 [])
-        | CArr a :: _ => if rank1 then Err EValue else
-                         match all_arrays (length a) l with Some rows => Ok (RV2 (length a) rows) | None => Err EValue end
-        | _ => match all_scalars l with Some cs => Ok (RV1 cs) | None => Err EValue end
-        end
-    end.
+  Definition bc_coef (p : nat) (o : coef) : res (list R) :=
+    match o with CNum c | CNp c => Ok (repeat c p) | CArr l => bc_row p l end.
 
   (* a[ix] = o  for a 1-D array a.  Subscript errors come first, then the value is checked. *)
-  Definition assign_arr (ix : list idx1) (a : list R) (o : rv) : res (list R) :=
+  Definition assign_arr (ix : list idx1) (a : list R) (o : coef) : res (list R) :=
     ad <- addr_of (length a) ix ;;
     match ad with
-    | AOne p => match o with RV0 c => Ok (set_nth p c a) | _ => Err EValue end   (* setting an array element with a sequence *)
-    | AMany ps => vs <- bc1 (length ps) o ;; Ok (write_pos ps vs a)
+    | AOne p => match o with
+                | CNum c | CNp c => Ok (set_nth p c a)
+                | CArr _ => Err EValue                             (* setting an array element with a sequence *)
+                end
+    | AMany ps => vs <- bc_coef (length ps) o ;; Ok (write_pos ps vs a)
     end.
   (* self_values[indices] = other_value *)
   Definition assign_coef (ix : list idx1) (self other : coef) : res coef :=
     match self with
-    | CArr a => a' <- assign_arr ix a (rv_of_coef other) ;; Ok (CArr a')
+    | CArr a => a' <- assign_arr ix a other ;; Ok (CArr a')
     | _ => Err EType                                             (* object does not support item assignment *)
     end.
-  (* for self_values, other_value in zip(self.values(), values): self_values[indices] = other_value *)
+  (* for self_values, other_value in zip(self.values(), values): self_values[indices] = other_value
+     -- in place, entry by entry: the entries before a failing one stay modified *)
   Fixpoint set_loop (ix : list idx1) (selfs others : list coef) : list coef * option err :=
     match selfs, others with
     | s :: ss, o :: os =>
@@ -227,8 +185,13 @@ Section Storage.
   Inductive rhs := FromMv (keys : list Z) (st : store)   (* a multivector *)
                  | FromRaw (st : store)                  (* a list of coefficients / an ndarray *)
                  | FromNum (c : R).                      (* a plain number *)
-  Definition rv_of_rhs (rank1 : bool) (V : rhs) : res rv :=
-    match V with FromNum c => Ok (RV0 c) | FromRaw st | FromMv _ st => rv_of_store rank1 st end.
+
+  (* the loop mutates the objects `_values` iterates over: the entries of a list, the rows of a 2-D ndarray
+     (row views).  Iterating a 1-D ndarray yields numpy scalars, which cannot be assigned to: it never changes. *)
+  Definition arrays_of (l : list coef) : list (list R) :=
+    flat_map (fun c => match c with CArr a => [a] | _ => [] end) l.
+  Definition restore (st : store) (l' : list coef) : store :=
+    match st with LBack _ => LBack l' | Nd1 v => Nd1 v | Nd2 n _ => Nd2 n (arrays_of l') end.
 
   (* MultiVector.__setitem__ : (final `_values`, exception raised) *)
   Definition mv_setitem (X : smv) (item : pyidx) (V : rhs) : store * option err :=
@@ -241,29 +204,10 @@ Section Storage.
     | Err e => (st, Some e)
     | Ok V' =>
         let ix := norm_item item in                              (* if not isinstance(indices, tuple): ... *)
-        match st with
-        | LBack l =>                                             (* isinstance(self.values(), (tuple, list)) *)
-            match V' with
-            | FromNum _ => (st, Some EType)                      (* zip(list, number): not iterable *)
-            | FromRaw vst | FromMv _ vst => let '(l', e) := set_loop ix l (entries vst) in (LBack l', e)
-            end
-        | Nd1 v =>                                               (* self.values()[(slice(None), *indices)] = values *)
-            match (_ <- (match ix with [] => Ok tt | _ => Err EIndex end) ;;
-                   o <- rv_of_rhs true V' ;; bc1 (length v) o) with
-            | Ok v' => (Nd1 v', None)
-            | Err e => (st, Some e)
-            end
-        | Nd2 n rows =>
-            match (ad <- addr_of n ix ;;
-                   match ad with
-                   | AOne p => o <- rv_of_rhs true V' ;; col <- bc1 (length rows) o ;;
-                               Ok (map2 (fun c r => set_nth p c r) col rows)
-                   | AMany ps => o <- rv_of_rhs false V' ;; m <- bc2 (length rows) (length ps) o ;;
-                                 Ok (map2 (write_pos ps) m rows)
-                   end) with
-            | Ok rows' => (Nd2 n rows', None)
-            | Err e => (st, Some e)
-            end
+        match V' with
+        | FromNum _ => (st, Some EType)                          (* zip(..., number): not iterable *)
+        | FromRaw vst | FromMv _ vst =>
+            let '(l', e) := set_loop ix (entries st) (entries vst) in (restore st l', e)
         end
     end.
 
@@ -368,7 +312,7 @@ Section Storage.
 End Storage.
 
 Arguments coef : clear implicits. Arguments store : clear implicits. Arguments smv : clear implicits.
-Arguments rv : clear implicits. Arguments rhs : clear implicits. Arguments iter_result : clear implicits.
+Arguments rhs : clear implicits. Arguments iter_result : clear implicits.
 Arguments operand : clear implicits. Arguments result : clear implicits.
 
 (* ------------------------------------------------------------------------------------------------
